@@ -124,7 +124,26 @@ def analyse(meta, run, gen_path):
         msgs = [d.get("message", "") for d in run["diags"] if d.get("level") == "error"][:5]
         if not msgs:
             msgs = [run["stderr"][-800:]]
-        undecided.append({"reason": "verus-rejected", "messages": msgs})
+        # which extracted functions do the compile errors sit in?  (used by the caller to retry with those functions
+        # replaced by assumed stubs, so that a renamed local that a spliced hint mentions costs one function, not the unit)
+        rej, outside = set(), 0
+        for d in run["diags"]:
+            if d.get("level") != "error" or d.get("message", "").startswith("aborting due to"):
+                continue
+            hit = None
+            for sp in d.get("spans", []):
+                inner = _innermost_in_file(sp, fname)
+                if inner is not None:
+                    ff = fn_at(inner["byte_start"])
+                    if ff is not None and not ff.get("stub"):
+                        hit = f"{ff['file']}::{ff['path']}"
+                        if sp.get("is_primary"):
+                            break
+            if hit:
+                rej.add(hit)
+            else:
+                outside += 1
+        undecided.append({"reason": "verus-rejected", "messages": msgs, "reject_fns": sorted(rej) if not outside else []})
     for d in run["diags"]:
         if d.get("level") != "error":
             continue
@@ -189,6 +208,7 @@ def analyse(meta, run, gen_path):
                          "tags": sorted(set(t for t in tags if t.startswith("C"))), "message": msg, "clause": clause,
                          "at": loc, "code": text, "in_template": f is None,
                          "fn_skipped_optional": bool(f and f.get("skipped_optional")),
+                         "fn_degraded": list(f.get("degraded") or []) if f else [],
                          "rendered": d.get("rendered", "")[:3000]})
     # per-function results
     functions = []
@@ -223,7 +243,7 @@ def match_functions(meta, analysis):
             if c2:
                 cands = c2
         rec = {"file": f["file"], "fn": f["path"], "line": f["line"], "tags": f["tags"], "stub": f.get("stub", False),
-               "body_sha": f.get("body_sha")}
+               "body_sha": f.get("body_sha"), "degraded": list(f.get("degraded") or [])}
         if f.get("stub"):
             rec["status"] = "assumed"
         elif len(cands) >= 1:
